@@ -27,6 +27,8 @@ type spec struct {
 	check    func(Script, Trace) error
 	nontriv  func(Script, Trace) bool
 	skip     func(Script, Trace) string
+	pre      func(thorough bool, each func(s Script, label string) bool)
+	repeat   bool // thorough: execute every script 3 times (select-case choice at one instant is random)
 }
 
 func run(t *testing.T, sp spec) {
@@ -34,17 +36,28 @@ func run(t *testing.T, sp spec) {
 		ID:   sp.id,
 		Rule: sp.rule,
 		Gen:  func(th bool) *rapid.Generator[Script] { return Gen(sp.focus, th) },
+		Pre:  sp.pre,
 		Run: func(s Script) evid.Outcome {
-			tr := Execute(t, s, sp.leak)
-			o := evid.Outcome{Classes: Classes(s, tr), Summary: summary(s, tr)}
-			if sp.skip != nil {
-				if r := sp.skip(s, tr); r != "" {
-					o.Skip = r
+			reps := 1
+			if sp.repeat && evid.Thorough() {
+				reps = 3
+			}
+			var o evid.Outcome
+			for i := 0; i < reps; i++ {
+				tr := Execute(t, s, sp.leak)
+				o = evid.Outcome{Classes: Classes(s, tr), Summary: summary(s, tr)}
+				if sp.skip != nil {
+					if r := sp.skip(s, tr); r != "" {
+						o.Skip = r
+						return o
+					}
+				}
+				o.NonTrivial = sp.nontriv(s, tr)
+				o.Err = sp.check(s, tr)
+				if o.Err != nil {
 					return o
 				}
 			}
-			o.NonTrivial = sp.nontriv(s, tr)
-			o.Err = sp.check(s, tr)
 			return o
 		},
 	})
@@ -79,8 +92,8 @@ func wedgedNotMine(s Script, tr Trace) string {
 
 func TestC03(t *testing.T) {
 	run(t, spec{
-		id:   "C03",
-		rule: "rapid-generated join/unite scripts (v1 join, v2 join, v2 unite; JoinSize, copy/no-copy, timeout from d ns to none, inaccuracy 1..100, input capacity 0..6, producer gaps around the timeout, consumer delays/holds/scribbling) on a fake clock; oracle: element-by-element equality of the concatenated outputs with the written stream + size rules; non-trivial = at least one slice was cut by a timeout, or (unite) an empty or oversize input slice occurred; distinct = distinct script JSON",
+		id:    "C03",
+		rule:  "rapid-generated join/unite scripts (v1 join, v2 join, v2 unite; JoinSize, copy/no-copy, timeout from d ns to none, inaccuracy 1..100, input capacity 0..6, producer gaps around the timeout, consumer delays/holds/scribbling) on a fake clock; oracle: element-by-element equality of the concatenated outputs with the written stream + size rules; non-trivial = at least one slice was cut by a timeout, or (unite) an empty or oversize input slice occurred; distinct = distinct script JSON",
 		check: CheckC03,
 		nontriv: func(s Script, tr Trace) bool {
 			z, _, _, _, m := inLenClasses(s)
@@ -91,10 +104,11 @@ func TestC03(t *testing.T) {
 
 func TestC08(t *testing.T) {
 	run(t, spec{
-		id:    "C08",
-		rule:  "join/unite scripts biased to consumers that keep slices (holds up to 3x Timeout with the producer blocked and timeouts firing, every slice kept referenced to the end of the run, scribbling in copy mode) and v1 Stop/cancel between delivery and release; oracle: snapshot at delivery vs contents at release / end of run / after Stop, pairwise disjoint memory in copy mode, nothing produced during a no-copy hold; non-trivial = a hold >= Timeout with pending producer data, or >= 3 retained slices, or a Stop during a hold; distinct = distinct script JSON",
-		focus: Focus{HoldHeavy: true, Stop: true},
-		check: CheckC08,
+		id:     "C08",
+		rule:   "join/unite scripts biased to consumers that keep slices (holds up to 3x Timeout with the producer blocked and timeouts firing, every slice kept referenced to the end of the run, scribbling in copy mode) and v1 Stop/cancel between delivery and release; oracle: snapshot at delivery vs contents at release / end of run / after Stop, pairwise disjoint memory in copy mode, nothing produced during a no-copy hold; non-trivial = a hold >= Timeout with pending producer data, or >= 3 retained slices, or a Stop during a hold; distinct = distinct script JSON",
+		focus:  Focus{HoldHeavy: true, Stop: true},
+		repeat: true,
+		check:  CheckC08,
 		nontriv: func(s Script, tr Trace) bool {
 			long := false
 			for _, c := range s.Cons {
@@ -154,10 +168,12 @@ func TestC11(t *testing.T) {
 
 func TestC16(t *testing.T) {
 	run(t, spec{
-		id:    "C16",
-		rule:  "v1 join scripts with Stop() or context cancel injected after delivery #k (while it is held, before release) or at a virtual time (before any data, mid-accumulation, with the output buffer full, producer blocked, input never closed); oracle: Stop returns, Output() is closed at that moment (non-blocking drain), delivered elements are an in-order duplicate-free subsequence; non-trivial = the stop was issued while a no-copy slice was unreleased, or while the consumer was not reading, or before the first delivery; distinct = distinct script JSON",
-		focus: Focus{Kinds: []string{KindV1Join}, Stop: true},
-		check: CheckC16,
+		id:     "C16",
+		rule:   "v1 join scripts with Stop() or context cancel injected after delivery #k (while it is held, before release) or at a virtual time (before any data, mid-accumulation, with the output buffer full, producer blocked, input never closed); oracle: Stop returns, Output() is closed at that moment (non-blocking drain), delivered elements are an in-order duplicate-free subsequence; non-trivial = the stop was issued while a no-copy slice was unreleased, or while the consumer was not reading, or before the first delivery; distinct = distinct script JSON",
+		focus:  Focus{Kinds: []string{KindV1Join}, Stop: true},
+		repeat: true,
+		pre:    func(th bool, each func(Script, string) bool) { enumerateStops(t, th, each) },
+		check:  CheckC16,
 		nontriv: func(s Script, tr Trace) bool {
 			if s.Stop == nil || tr.StopIssuedAt < 0 {
 				return false
@@ -191,4 +207,65 @@ func TestC20(t *testing.T) {
 			return len(tr.Outs) >= 2
 		},
 	})
+}
+
+// enumerateStops : for a few fixed v1 join scripts, Stop and cancel at every event time of
+// the fault-free run (and 1 ns before and after it) and while holding every delivery.
+func enumerateStops(t *testing.T, thorough bool, each func(s Script, label string) bool) {
+	const T = int64(40_000_000) // 10ms * d for the default inaccuracy (d = 4)
+	gaps := []int64{0, 0, T / 3, 0, T + 1, 0, 0, T / 2, 0, 3 * T, 0}
+	var bases []Script
+	for _, nocopy := range []bool{false, true} {
+		for _, to := range []int64{0, T} {
+			for _, cp := range []int{0, 2} {
+				for _, cons := range [][]CStep{nil, {{Delay: T / 3, Hold: T / 2}, {Hold: T + 1}}} {
+					b := Script{Kind: KindV1Join, J: 3, NoCopy: nocopy, Timeout: to, InCap: cp, CloseGap: T / 2, Cons: cons}
+					for _, g := range gaps {
+						b.Prod = append(b.Prod, PStep{Gap: g, Len: 1})
+					}
+					bases = append(bases, b)
+				}
+			}
+		}
+	}
+	for _, b := range bases {
+		tr := Execute(t, b, false)
+		times := map[int64]bool{0: true}
+		add := func(x int64) {
+			for _, d := range []int64{-1, 0, 1} {
+				if x+d >= 0 {
+					times[x+d] = true
+				}
+			}
+		}
+		for _, x := range tr.WStart {
+			add(x)
+		}
+		for _, x := range tr.WDone {
+			add(x)
+		}
+		for _, o := range tr.Outs {
+			add(o.At)
+		}
+		add(tr.CloseAt)
+		for _, mode := range []string{"stop", "cancel"} {
+			for k := 0; k <= len(tr.Outs); k++ {
+				s := b
+				s.Stop = &StopPlan{Mode: mode, AfterRecv: k}
+				if !each(s, "stop-enumeration") {
+					return
+				}
+			}
+			for tm := range times {
+				for _, noclose := range []bool{false, true} {
+					s := b
+					s.NoClose = noclose
+					s.Stop = &StopPlan{Mode: mode, AfterRecv: -1, AtTime: tm}
+					if !each(s, "stop-enumeration") {
+						return
+					}
+				}
+			}
+		}
+	}
 }
